@@ -2,7 +2,7 @@ SPECIFICATION Spec
 CONSTANTS
  EopmLocalPerCall = FALSE  PickyAcceptsZero = FALSE  AutoFinishAll = FALSE
  MemDictLimbHi = 752
- ChunkSizes = {0, 1}  Profile = "quick"  Sweep = "core"
+ ChunkSizes = {0}  Profile = "quick"  Sweep = "all"
  Formats = {"alone", "lzip", "xz"}
-INVARIANTS MeetsContract NeverUnspecified StopsAtFirstStream Bounded
+CONSTRAINT Emit
 CHECK_DEADLOCK FALSE
